@@ -91,9 +91,11 @@ class InfraError(Exception):
 
 
 class Check:
-    def __init__(self, pid, module=None, design_ref=''):
+    def __init__(self, pid, module=None, design_ref='', extra_modules=()):
         self.pid = pid
         self.module = module or 'Bardolph.Props.' + pid
+        # further modules whose theorems belong to this property (helper proofs, split files)
+        self.extra_modules = list(extra_modules)
         self.tier = os.environ.get('VERIF_TIER', 'quick')
         args = sys.argv[1:]
         for i, a in enumerate(args):
@@ -155,15 +157,23 @@ class Check:
                                  capture_output=True, text=True)
             if drv.returncode != 0:
                 raise InfraError('model/driver does not build:\n' + drv.stdout[-3000:])
-            res = subprocess.run(['lake', 'build', self.module, 'Bardolph.Audit.Tool'],
+            res = subprocess.run(['lake', 'build', self.module, 'Bardolph.Audit.Tool']
+                                 + self.extra_modules,
                                  cwd=LEAN_DIR, capture_output=True, text=True)
             self.proof['build_ok'] = res.returncode == 0
             self.proof['checker_cmd'] = 'cd lean && lake build {} && #audit_module'.format(
                 self.module)
             src = os.path.join(LEAN_DIR, *self.module.split('.')) + '.lean'
             declared = self._declared_theorems(src)
+            for extra in self.extra_modules:
+                declared += self._declared_theorems(
+                    os.path.join(LEAN_DIR, *extra.split('.')) + '.lean')
             if res.returncode != 0:
                 failing = self._failing_theorems(res.stdout, src)
+                for extra in self.extra_modules:
+                    failing += [x for x in self._failing_theorems(
+                        res.stdout, os.path.join(LEAN_DIR, *extra.split('.')) + '.lean')
+                        if x not in failing and not x.startswith('in ')]
                 self.proof['build_log'] = res.stdout[-4000:]
                 for name in failing or ['<module {} does not build>'.format(self.module)]:
                     self.broken.append('theorem:' + name)
@@ -231,7 +241,9 @@ class Check:
         return failing
 
     def _audit(self):
-        text = ('import Bardolph.Audit.Tool\nimport {m}\n#audit_module {m}\n'.format(m=self.module))
+        mods = [self.module] + self.extra_modules
+        text = 'import Bardolph.Audit.Tool\n' + ''.join('import {}\n'.format(m) for m in mods) + \
+            ''.join('#audit_module {}\n'.format(m) for m in mods)
         res = subprocess.run(['lake', 'env', 'lean', '--stdin'], cwd=LEAN_DIR, input=text,
                              capture_output=True, text=True)
         if res.returncode != 0:
